@@ -1,0 +1,13 @@
+//go:build verif
+
+package syntax
+
+// Verification hook (build tag verif): switches for the semantics-preserving tree rewrites, so that
+// /verif can compile the same pattern with a rewrite family turned off and compare results.
+// All gates are clear by default; a clear gate changes nothing.
+
+// VerifGates is a bit set: 1 auto-atomic loops, 2 removal of ending backtracking, 4 bump-along marker,
+// 8 atomic-alternation trimming/reordering, 16 alternation prefix factoring.
+var VerifGates uint32
+
+func verifGate(bit uint32) bool { return VerifGates&bit != 0 }
